@@ -59,6 +59,16 @@ PROPS = {
         "level_text": "Theorems over all inputs: per-type constraint satisfaction of every accepted value (allowed values, required => non-empty, trimming, bool formats, multi join, date via oracle), rejection of wrong-typed values, agreement of 'no value' with EvaluateOptionDefault, one value per declared option or rejection, the priority order explicit > option > jobconfig context of the stored map (sort_kv is a finite map: later wins), independence of substitution from map enumeration order (sorted lists with equal lookups are equal). Model tied to EvaluateOption/Default, SubstituteVariableMaps, MutateCreateJob and NewPod by the options stream.",
         "level_note": "Partial on general template semantics. Genuine defect F7 (map-order dependent rendering) fixed in 3075a93. Trusted: Coq kernel + vm_compute; date formatting oracle.",
     },
+    "C15": {
+        "props_file": "Props/C15.v",
+        "theorems": ["c15_exact_at_quiescence", "c15_state_cases", "c15_monotone", "c15_dominates"],
+        "families": [{"name": "jcstatus", "n_quick": 400, "n_thorough": 12000}],
+        "rule": "jcstatus: histories of 10-60 ops on one JobConfig (no schedule / enabled / disabled, optional pre-existing lastScheduled/lastExecuted): Job create (owned or not, schedule-time annotation valid/absent/garbage), start, phase change (7 live and 5 terminal phases), delete, schedule edit, single deliveries of Job events to the Job cache and of JobConfig events to the JobConfig cache in any interleaving, injected UpdateStatus failures, resourceVersion conflicts on stale caches, rate-limited re-adds fired at arbitrary points, and work items processed by the real reconciler.Controller.work -> Reconciler.SyncOne; driven to quiescence at random points and at the end. Observed after every op: status in the API (references sorted by name), resourceVersion, queue ready/delayed, outcome. non-trivial = more than one status write; distinct by op list",
+        "trusted": ["the informer's list order is fixed to key order by the harness (client-go returns Go map order; the controller copies it into status.activeJobs, so the order is not part of the comparison)", "the event recorder is a fake; events are not compared"],
+        "assumptions": ["'dominates' is stated for Jobs seen by a pass that completed without error; a Job created and deleted between two passes is never seen by the controller (inherent to a cache-driven controller, stated in the theorem)", "one JobConfig; JobConfig deletion is not generated"],
+        "level_text": "Theorems over all histories of the world model (API truth, two lagging caches, work queue with rate-limited retries, write faults and conflicts): at every settled state the API status lists exactly the owned active / queued Jobs with matching counts and derived state, and its high-water marks dominate all present Jobs; lastScheduled/lastExecuted never decrease; anything a completed pass saw stays dominated forever (also after deletion). Proof by an invariant (caches replay the API; pending JobConfig objects are older and no larger; 'not queued, nothing delayed, no pending JobConfig event => the cached status is a fixpoint'). The world model is tied to the real InformerWorker + Reconciler + reconciler.Controller by the jcstatus stream; an independent monitor restates the property on the implementation trace.",
+        "level_note": "Trusted: Coq kernel + vm_compute; harness-driven informers/work queue (SimInformer, SimQueue) and the JobConfig status reactor (status sub-resource, resourceVersion conflict).",
+    },
     "C05": {
         "props_file": "Props/C05.v",
         "theorems": ["c05_pass_bound", "c05_no_double_increment", "c05_release_on_finish", "c05_release_on_delete", "c05_store_steps", "c05_rollback", "c05_recover"],
